@@ -21,7 +21,8 @@ type ProgOpts struct {
 	GapPct     int   // chance of an address gap before an instruction
 	CSRPct     int
 	SysPct     int
-	NoBadJumps bool // (kept for documentation: constant targets are always instruction starts)
+	NoBadJumps bool // (kept for documentation: constant targets are instruction starts unless BadJumpPct > 0)
+	BadJumpPct int  // share of jumps/branches whose constant target is no instruction start
 	CSRs       []int
 	// Weights of ALU sub-classes (0 = default).
 	WImm, WReg, WShift, WW, WMul, WUpper int
@@ -113,6 +114,18 @@ func RandomProgram(r *core.Rand, base uint64, n int, o ProgOpts) []ProgIns {
 				j = i + 1 // branch / jump to the next instruction
 			}
 			off := int64(addrs[j]) - int64(addrs[i])
+			if o.BadJumpPct > 0 && r.Intn(100) < o.BadJumpPct {
+				// a constant target that is no instruction start: the middle
+				// of an instruction, just behind the code, far away
+				switch r.Intn(4) {
+				case 0, 1:
+					off += 2
+				case 2: // just behind the code / in the middle of its last instruction
+					off = int64(addrs[n-1]) + int64(2+2*r.Intn(2)) - int64(addrs[i])
+				default:
+					off = int64(2 * r.Range(-1000, 1000))
+				}
+			}
 			switch r.Intn(5) {
 			case 0:
 				emit(i, "jal", dst(), 0, 0, off)
